@@ -199,9 +199,9 @@ def c19(pid, tier, seed, selftest=False):
         else:
             for rep_i in range(8 if thorough else 2):
                 scen.append({"op": "dh", "id": "dh%d.%d" % (i, rep_i), "c": r["c"], "fails": r["fails"]})
-    if thorough:
-        # HMAC for all key lengths 0..130 x message lengths 0..130: the same term shapes, every length
-        pass
+    # derivation vs base-point multiplication for thousands of scalars (a fault that hits one key in a few hundred)
+    for k in range(16 if thorough else 4):
+        scen.append({"op": "derive_sweep", "id": "sweep%d" % k, "k": k, "n": 4000})
     for s in scen:
         rep.case(s["id"], True)
     rep.sample({k: v for k, v in scen[0].items() if k != "term"})
